@@ -164,6 +164,9 @@ fn same_layout(extra: usize) {
     assert!(failed == (fail_at < n));
     if let Ok(out) = &r {
         assert!(out.len() == n);
+        // the result owns the original allocation: it must record that allocation's capacity
+        // (it is freed with a layout computed from it)
+        assert!(out.capacity() == MAXN + extra, "C27: the mapped vector records a wrong capacity for its allocation");
     }
     drop(r);
     check_counts(n, fail_at, failed);
